@@ -2,7 +2,7 @@
 non-deterministic inputs)."""
 from .. import expr as X
 from .. import query as Q
-from .. import rules_rollback, rules_part
+from .. import rules_rollback, rules_part, rules_num
 from .C11 import Renamed
 
 TIME_SOURCES = {"timer_new", "timer_value", "timer_hr_new", "timer_hr_value", "__rdtsc", "__builtin_ia32_rdtsc", "stats_retrieve", "mem_stat_rss_current_get",
@@ -28,8 +28,11 @@ def run(ck, progs):
                      "statistics update, another timer call, a log, or an assignment to / comparison with the designated performance state; that "
                      "state (auto-checkpoint fields, GVT timer) is read only by the functions that take checkpoint / GVT-initiation decisions")
     ck.rule("C09.4", "LP placement is computed by the monotone routing macros and partition_start (C14.1, C14.2)")
+    ck.rule("C09.5", "no generator-related state outside the LP's rollbackable context: the numerical library keeps no static, thread-local or file-scope "
+                     "mutable variable (a cached variate would neither be rolled back nor be independent of which LPs share the thread): C18.5")
     for cfg, P in progs.items():
         _seeding(ck, P, cfg)
+        rules_num.check_generator_isolation(Renamed(ck, {"C18.5": "C09.5"}), P, "C18.5")
         rules_rollback.check_rng_rollbackable(ck, P, "C09.2")
         _perf_only(ck, P, cfg)
         rules_part.check_monotone_routing(ck, P, "C09.4")
